@@ -199,6 +199,31 @@ func newVM(h *host, limit int) (*otto.Otto, error) {
 			}
 			return swallow(v, err)
 		}},
+		{"hrec", func(call otto.FunctionCall) otto.Value {
+			// limits families: re-enter the runtime and call r; an error (the
+			// stack-limit RangeError) is re-raised the way otto itself does it
+			h.called()
+			kind, _ := call.Argument(0).ToInteger()
+			var v otto.Value
+			var err error
+			switch kind {
+			case 0:
+				v, err = call.Otto.Run(`r()`)
+			case 1:
+				v, err = call.Otto.Call("r", nil)
+			default:
+				fn, _ := call.Otto.Get("r")
+				v, err = fn.Call(otto.UndefinedValue())
+			}
+			if err != nil {
+				var oe *otto.Error
+				if errors.As(err, &oe) {
+					panic(oe)
+				}
+				panic(err)
+			}
+			return v
+		}},
 		{"hrun", func(call otto.FunctionCall) otto.Value {
 			h.called()
 			src, _ := call.Argument(0).ToString()
